@@ -1,4 +1,5 @@
 import HexProofs.Numeric.Simple
+import HexProofs.Numeric.SeriesOnManagersC06
 import HexProofs.Numeric.SeriesInputsMACD
 import HexProofs.Numeric.SeriesInputsSTOCH
 import HexProofs.Numeric.SeriesInputsTSI
@@ -1169,6 +1170,8 @@ theorem tsi_inputs_rows {K : Type} [Field K] [LinearOrder K] [IsStrictOrderedRin
 end Hex.C06
 
 namespace Hex.C06
+open Hex Hex.Numeric
+variable {K : Type} [Field K] [LinearOrder K] [IsStrictOrderedRing K] [LawfulPyF K]
 
 /-- **C06, ADX over every candle list** (foreign readings allowed; ADX has no input to shift) -/
 theorem C06_ADX_inputs_holds : Numeric.C06AdxStatement := Numeric.c06_adx_inputs
@@ -1182,5 +1185,316 @@ theorem adx_inputs_readings {K : Type} [Field K] [LinearOrder K] [IsStrictOrdere
       out.length = cs.length ∧
       ∀ j, j < cs.length → Numeric.AdxCandleOK nm n p sg cs j (out.getD j default) :=
   Numeric.c06_adx_inputs_readings p sg nm n cs hp hg hn habs
+
+theorem rsi_series_on_manager (M : MgrSpec K) (p : Nat) (hp : 1 ≤ p) (nm input : String) (fld : Candle K → Num K)
+    (n : Nat) (hn : RsiNames nm) (hk : IsKey nm) (hin : AttrInput input)
+    (hattr : ∀ c : Candle K, c.attr input = some (.num (fld c))) :
+    HoldsOn M (mkTop (.rsi (p : Int) input : Kind K) nm n) (RsiCandle p n nm fld) :=
+  Numeric.rsi_series_on_manager M p hp nm input fld n hn hk hin hattr
+
+/-- **RSI on a collapsing timeframe, total**: every history over a sorted stamped raw stream RETURNS, with the RSI
+series of the collapsed candles -/
+theorem rsi_series_on_tf (tf : Int) (htf : 0 < tf) (p : Nat) (hp : 1 ≤ p) (nm input : String) (fld : Candle K → Num K)
+    (n : Nat) (hn : RsiNames nm) (hk : IsKey nm) (hin : AttrInput input)
+    (hattr : ∀ c : Candle K, c.attr input = some (.num (fld c)))
+    (init : List (Candle K)) (chunks : List (List (Candle K))) (hraw : RawTf (init ++ chunks.flatten)) :
+    ∃ snap, candlesOf (runIndicator (mkTop (.rsi (p : Int) input : Kind K) nm n) { tf := some tf } init chunks)
+        = .ok snap ∧
+      snap.length = (resample tf (init ++ chunks.flatten)).length ∧
+      ∀ j, j < (resample tf (init ++ chunks.flatten)).length →
+        (snap.getD j default).bare = ((resample tf (init ++ chunks.flatten)).getD j default).bare ∧
+        RsiOwnOK n (rsiSeries p (fieldAt fld (resample tf (init ++ chunks.flatten))) j)
+          (readingByCandle (snap.getD j default) nm) ∧
+        (j < p → readingByCandle (snap.getD j default) (nm ++ "_data") = .none) ∧
+        (p ≤ j →
+          readingByCandle (snap.getD j default) (nm ++ "_data.gain")
+            = .flt (wilderAvg p (upAt (fieldAt fld (resample tf (init ++ chunks.flatten)))) j) ∧
+          readingByCandle (snap.getD j default) (nm ++ "_data.loss")
+            = .flt (wilderAvg p (downAt (fieldAt fld (resample tf (init ++ chunks.flatten)))) j)) :=
+  Numeric.rsi_series_tf tf htf p hp nm input fld n hn hk hin hattr init chunks hraw
+
+theorem rsi_series_on_fillHA (tf : Int) (htf : 0 < tf) (p : Nat) (hp : 1 ≤ p) (nm input : String)
+    (fld : Candle K → Num K) (n : Nat) (hn : RsiNames nm) (hk : IsKey nm) (hin : AttrInput input)
+    (hattr : ∀ c : Candle K, c.attr input = some (.num (fld c)))
+    (init : List (Candle K)) (chunks : List (List (Candle K)))
+    (hraw : RawTf (init ++ chunks.flatten) ∧ ∀ c ∈ init ++ chunks.flatten, c.tag = false) :
+    ∃ snap, candlesOf (runIndicator (mkTop (.rsi (p : Int) input : Kind K) nm n)
+        { tf := some tf, fill := true, ha := true } init chunks) = .ok snap ∧
+      EveryCandle (RsiCandle p n nm fld) (haSpec (fillSpec tf (init ++ chunks.flatten))) snap :=
+  Numeric.rsi_series_fillHA tf htf p hp nm input fld n hn hk hin hattr init chunks hraw
+
+/-- **the MACD run on every manager is `macdOut` of the manager's candles** -/
+theorem macd_runs_on_manager (M : MgrSpec K) (nm : String) (n pf ps pg : Nat) (input : String)
+    (fld : Candle K → Num K) (hf : 2 ≤ pf) (hfs : pf ≤ ps) (hg : 1 ≤ pg) (hn : MacdNames nm) (hin : AttrInput input)
+    (hattr : ∀ c : Candle K, c.attr input = some (.num (fld c))) :
+    RunsAs M (mkTop (.macd (pf : Int) (ps : Int) (pg : Int) input : Kind K) nm n) (macdOut nm n pf ps pg fld) :=
+  Numeric.macd_runs_on_manager M nm n pf ps pg input fld hf hfs hg hn hin hattr
+
+theorem macd_series_on_manager (M : MgrSpec K) (nm : String) (n pf ps pg : Nat) (input : String)
+    (fld : Candle K → Num K) (hf : 2 ≤ pf) (hfs : pf ≤ ps) (hg : 1 ≤ pg) (hn : MacdNames nm) (hin : AttrInput input)
+    (hattr : ∀ c : Candle K, c.attr input = some (.num (fld c))) :
+    HoldsOn M (mkTop (.macd (pf : Int) (ps : Int) (pg : Int) input : Kind K) nm n) (MacdCandle nm n pf ps pg fld) :=
+  Numeric.macd_series_on_manager M nm n pf ps pg input fld hf hfs hg hn hin hattr
+
+/-- **MACD on a collapsing timeframe**: the history returns `macdOut` of the collapsed candles, candle by candle
+`MacdCandleOK` -/
+theorem macd_series_on_tf (tf : Int) (htf : 0 < tf) (nm : String) (n pf ps pg : Nat) (input : String)
+    (fld : Candle K → Num K) (hf : 2 ≤ pf) (hfs : pf ≤ ps) (hg : 1 ≤ pg) (hn : MacdNames nm) (hin : AttrInput input)
+    (hattr : ∀ c : Candle K, c.attr input = some (.num (fld c)))
+    (init : List (Candle K)) (chunks : List (List (Candle K))) (hraw : RawTf (init ++ chunks.flatten)) :
+    ∃ snap, candlesOf (runIndicator (mkTop (.macd (pf : Int) (ps : Int) (pg : Int) input : Kind K) nm n)
+        { tf := some tf } init chunks) = .ok snap ∧
+      snap = macdOut nm n pf ps pg fld (resample tf (init ++ chunks.flatten)) ∧
+      snap.length = (resample tf (init ++ chunks.flatten)).length ∧
+      ∀ j, j < (resample tf (init ++ chunks.flatten)).length →
+        MacdCandleOK nm n pf ps pg (fieldAt fld (resample tf (init ++ chunks.flatten))) j
+          ((resample tf (init ++ chunks.flatten)).getD j default) (snap.getD j default) :=
+  Numeric.macd_series_tf tf htf nm n pf ps pg input fld hf hfs hg hn hin hattr init chunks hraw
+
+theorem macd_series_on_fillHA (tf : Int) (htf : 0 < tf) (nm : String) (n pf ps pg : Nat) (input : String)
+    (fld : Candle K → Num K) (hf : 2 ≤ pf) (hfs : pf ≤ ps) (hg : 1 ≤ pg) (hn : MacdNames nm) (hin : AttrInput input)
+    (hattr : ∀ c : Candle K, c.attr input = some (.num (fld c)))
+    (init : List (Candle K)) (chunks : List (List (Candle K)))
+    (hraw : RawTf (init ++ chunks.flatten) ∧ ∀ c ∈ init ++ chunks.flatten, c.tag = false) :
+    ∃ snap, candlesOf (runIndicator (mkTop (.macd (pf : Int) (ps : Int) (pg : Int) input : Kind K) nm n)
+        { tf := some tf, fill := true, ha := true } init chunks) = .ok snap ∧
+      snap = macdOut nm n pf ps pg fld (haSpec (fillSpec tf (init ++ chunks.flatten))) ∧
+      EveryCandle (MacdCandle nm n pf ps pg fld) (haSpec (fillSpec tf (init ++ chunks.flatten))) snap :=
+  Numeric.macd_series_fillHA tf htf nm n pf ps pg input fld hf hfs hg hn hin hattr init chunks hraw
+
+/-- **the STOCH run on every manager is `stochDeco` of the manager's candles** -/
+theorem stoch_runs_on_manager (M : MgrSpec K) (p sk sl : Nat) (hp : 2 ≤ p) (hsk : 1 ≤ sk) (hsl : 1 ≤ sl)
+    (nm input : String) (fld : Candle K → Num K) (n : Nat) (hn : StochNames nm) (hin : AttrInput input)
+    (hattr : ∀ c : Candle K, c.attr input = some (.num (fld c))) :
+    RunsAs M (mkTop (.stoch (p : Int) (sl : Int) (sk : Int) input : Kind K) nm n) (stochDeco nm n p sk sl fld) :=
+  Numeric.stoch_runs_on_manager M p sk sl hp hsk hsl nm input fld n hn hin hattr
+
+theorem stoch_series_on_manager (M : MgrSpec K) (p sk sl : Nat) (hp : 2 ≤ p) (hsk : 1 ≤ sk) (hsl : 1 ≤ sl)
+    (nm input : String) (fld : Candle K → Num K) (n : Nat) (hn : StochNames nm) (hin : AttrInput input)
+    (hattr : ∀ c : Candle K, c.attr input = some (.num (fld c))) :
+    HoldsOn M (mkTop (.stoch (p : Int) (sl : Int) (sk : Int) input : Kind K) nm n) (StochCandle n p sk sl nm fld) :=
+  Numeric.stoch_series_on_manager M p sk sl hp hsk hsl nm input fld n hn hin hattr
+
+/-- **STOCH on a collapsing timeframe**: `%K` over the lows / highs of the last `p` COLLAPSED candles -/
+theorem stoch_series_on_tf (tf : Int) (htf : 0 < tf) (p sk sl : Nat) (hp : 2 ≤ p) (hsk : 1 ≤ sk) (hsl : 1 ≤ sl)
+    (nm input : String) (fld : Candle K → Num K) (n : Nat) (hn : StochNames nm) (hin : AttrInput input)
+    (hattr : ∀ c : Candle K, c.attr input = some (.num (fld c)))
+    (init : List (Candle K)) (chunks : List (List (Candle K))) (hraw : RawTf (init ++ chunks.flatten)) :
+    ∃ snap, candlesOf (runIndicator (mkTop (.stoch (p : Int) (sl : Int) (sk : Int) input : Kind K) nm n)
+        { tf := some tf } init chunks) = .ok snap ∧
+      snap = stochDeco nm n p sk sl fld (resample tf (init ++ chunks.flatten)) ∧
+      snap.length = (resample tf (init ++ chunks.flatten)).length ∧
+      ∀ j, j < (resample tf (init ++ chunks.flatten)).length →
+        StochOK n p sk sl (fieldAt (·.l) (resample tf (init ++ chunks.flatten)))
+          (fieldAt (·.h) (resample tf (init ++ chunks.flatten))) (fieldAt fld (resample tf (init ++ chunks.flatten))) j
+          (readingByCandle (snap.getD j default) nm) (readingByCandle (snap.getD j default) (nm ++ "_data"))
+          (readingByCandle (snap.getD j default) (nm ++ "_k")) (readingByCandle (snap.getD j default) (nm ++ "_d")) :=
+  Numeric.stoch_series_tf tf htf p sk sl hp hsk hsl nm input fld n hn hin hattr init chunks hraw
+
+theorem stoch_series_on_fillHA (tf : Int) (htf : 0 < tf) (p sk sl : Nat) (hp : 2 ≤ p) (hsk : 1 ≤ sk) (hsl : 1 ≤ sl)
+    (nm input : String) (fld : Candle K → Num K) (n : Nat) (hn : StochNames nm) (hin : AttrInput input)
+    (hattr : ∀ c : Candle K, c.attr input = some (.num (fld c)))
+    (init : List (Candle K)) (chunks : List (List (Candle K)))
+    (hraw : RawTf (init ++ chunks.flatten) ∧ ∀ c ∈ init ++ chunks.flatten, c.tag = false) :
+    ∃ snap, candlesOf (runIndicator (mkTop (.stoch (p : Int) (sl : Int) (sk : Int) input : Kind K) nm n)
+        { tf := some tf, fill := true, ha := true } init chunks) = .ok snap ∧
+      EveryCandle (StochCandle n p sk sl nm fld) (haSpec (fillSpec tf (init ++ chunks.flatten))) snap :=
+  Numeric.stoch_series_fillHA tf htf p sk sl hp hsk hsl nm input fld n hn hin hattr init chunks hraw
+
+/-- **the TSI run on every manager is `tsiOut` of the manager's candles** -/
+theorem tsi_runs_on_manager (M : MgrSpec K) (nm : String) (n p s : Nat) (input : String) (fld : Candle K → Num K)
+    (hp : 1 ≤ p) (hs : 1 ≤ s) (hn : TsiNames nm) (hin : AttrInput input)
+    (hattr : ∀ c : Candle K, c.attr input = some (.num (fld c))) :
+    RunsAs M (mkTop (.tsi (p : Int) (s : Int) input : Kind K) nm n) (tsiOut nm n p s fld) :=
+  Numeric.tsi_runs_on_manager M nm n p s input fld hp hs hn hin hattr
+
+theorem tsi_series_on_manager (M : MgrSpec K) (nm : String) (n p s : Nat) (input : String) (fld : Candle K → Num K)
+    (hp : 1 ≤ p) (hs : 1 ≤ s) (hn : TsiNames nm) (hin : AttrInput input)
+    (hattr : ∀ c : Candle K, c.attr input = some (.num (fld c))) :
+    HoldsOn M (mkTop (.tsi (p : Int) (s : Int) input : Kind K) nm n) (TsiCandle nm n p s fld) :=
+  Numeric.tsi_series_on_manager M nm n p s input fld hp hs hn hin hattr
+
+theorem tsi_series_on_tf (tf : Int) (htf : 0 < tf) (nm : String) (n p s : Nat) (input : String)
+    (fld : Candle K → Num K) (hp : 1 ≤ p) (hs : 1 ≤ s) (hn : TsiNames nm) (hin : AttrInput input)
+    (hattr : ∀ c : Candle K, c.attr input = some (.num (fld c)))
+    (init : List (Candle K)) (chunks : List (List (Candle K))) (hraw : RawTf (init ++ chunks.flatten)) :
+    ∃ snap, candlesOf (runIndicator (mkTop (.tsi (p : Int) (s : Int) input : Kind K) nm n) { tf := some tf }
+        init chunks) = .ok snap ∧
+      snap = tsiOut nm n p s fld (resample tf (init ++ chunks.flatten)) ∧
+      snap.length = (resample tf (init ++ chunks.flatten)).length ∧
+      ∀ j, j < (resample tf (init ++ chunks.flatten)).length →
+        TsiCandleOK nm n p s (fieldAt fld (resample tf (init ++ chunks.flatten))) j
+          ((resample tf (init ++ chunks.flatten)).getD j default) (snap.getD j default) :=
+  Numeric.tsi_series_tf tf htf nm n p s input fld hp hs hn hin hattr init chunks hraw
+
+theorem tsi_series_on_fillHA (tf : Int) (htf : 0 < tf) (nm : String) (n p s : Nat) (input : String)
+    (fld : Candle K → Num K) (hp : 1 ≤ p) (hs : 1 ≤ s) (hn : TsiNames nm) (hin : AttrInput input)
+    (hattr : ∀ c : Candle K, c.attr input = some (.num (fld c)))
+    (init : List (Candle K)) (chunks : List (List (Candle K)))
+    (hraw : RawTf (init ++ chunks.flatten) ∧ ∀ c ∈ init ++ chunks.flatten, c.tag = false) :
+    ∃ snap, candlesOf (runIndicator (mkTop (.tsi (p : Int) (s : Int) input : Kind K) nm n)
+        { tf := some tf, fill := true, ha := true } init chunks) = .ok snap ∧
+      snap = tsiOut nm n p s fld (haSpec (fillSpec tf (init ++ chunks.flatten))) ∧
+      EveryCandle (TsiCandle nm n p s fld) (haSpec (fillSpec tf (init ++ chunks.flatten))) snap :=
+  Numeric.tsi_series_fillHA tf htf nm n p s input fld hp hs hn hin hattr init chunks hraw
+
+/-- **the ADX run on every manager is `adxOut` of the manager's candles** -/
+theorem adx_runs_on_manager (M : MgrSpec K) (nm : String) (n p sg : Nat) (hp : 1 ≤ p) (hg : 1 ≤ sg)
+    (hn : AdxNames nm) : RunsAs M (mkTop (.adx (p : Int) (sg : Int) : Kind K) nm n) (adxOut nm n p sg) :=
+  Numeric.adx_runs_on_manager M nm n p sg hp hg hn
+
+theorem adx_series_on_manager (M : MgrSpec K) (nm : String) (n p sg : Nat) (hp : 1 ≤ p) (hg : 1 ≤ sg)
+    (hn : AdxNames nm) : HoldsOn M (mkTop (.adx (p : Int) (sg : Int) : Kind K) nm n) (AdxCandle nm n p sg) :=
+  Numeric.adx_series_on_manager M nm n p sg hp hg hn
+
+theorem adx_series_on_tf (tf : Int) (htf : 0 < tf) (nm : String) (n p sg : Nat) (hp : 1 ≤ p) (hg : 1 ≤ sg)
+    (hn : AdxNames nm) (init : List (Candle K)) (chunks : List (List (Candle K)))
+    (hraw : RawTf (init ++ chunks.flatten)) :
+    ∃ snap, candlesOf (runIndicator (mkTop (.adx (p : Int) (sg : Int) : Kind K) nm n) { tf := some tf }
+        init chunks) = .ok snap ∧
+      snap = adxOut nm n p sg (resample tf (init ++ chunks.flatten)) ∧
+      snap.length = (resample tf (init ++ chunks.flatten)).length ∧
+      ∀ j, j < (resample tf (init ++ chunks.flatten)).length →
+        AdxCandleOK nm n p sg (resample tf (init ++ chunks.flatten)) j (snap.getD j default) :=
+  Numeric.adx_series_tf tf htf nm n p sg hp hg hn init chunks hraw
+
+theorem adx_series_on_fillHA (tf : Int) (htf : 0 < tf) (nm : String) (n p sg : Nat) (hp : 1 ≤ p) (hg : 1 ≤ sg)
+    (hn : AdxNames nm) (init : List (Candle K)) (chunks : List (List (Candle K)))
+    (hraw : RawTf (init ++ chunks.flatten) ∧ ∀ c ∈ init ++ chunks.flatten, c.tag = false) :
+    ∃ snap, candlesOf (runIndicator (mkTop (.adx (p : Int) (sg : Int) : Kind K) nm n)
+        { tf := some tf, fill := true, ha := true } init chunks) = .ok snap ∧
+      snap = adxOut nm n p sg (haSpec (fillSpec tf (init ++ chunks.flatten))) ∧
+      EveryCandle (AdxCandle nm n p sg) (haSpec (fillSpec tf (init ++ chunks.flatten))) snap :=
+  Numeric.adx_series_fillHA tf htf nm n p sg hp hg hn init chunks hraw
+
+theorem aroon_series_on_manager (M : MgrSpec K) (p : Nat) (hp : 1 ≤ p) (nm : String) (n : Nat) (hk : IsKey nm) :
+    HoldsOn M (mkTop (.aroon p : Kind K) nm n) (AroonCandle p n nm) :=
+  Numeric.aroon_series_on_manager M p hp nm n hk
+
+theorem aroon_series_on_tf (tf : Int) (htf : 0 < tf) (p : Nat) (hp : 1 ≤ p) (nm : String) (n : Nat) (hk : IsKey nm)
+    (init : List (Candle K)) (chunks : List (List (Candle K))) (hraw : RawTf (init ++ chunks.flatten)) :
+    ∃ snap, candlesOf (runIndicator (mkTop (.aroon p : Kind K) nm n) { tf := some tf } init chunks) = .ok snap ∧
+      snap.length = (resample tf (init ++ chunks.flatten)).length ∧
+      ∀ j, j < (resample tf (init ++ chunks.flatten)).length →
+        (snap.getD j default).bare = ((resample tf (init ++ chunks.flatten)).getD j default).bare ∧
+        AroonOK p n (fieldAt (·.h) (resample tf (init ++ chunks.flatten)))
+          (fieldAt (·.l) (resample tf (init ++ chunks.flatten))) j (readingByCandle (snap.getD j default) nm) :=
+  Numeric.aroon_series_tf tf htf p hp nm n hk init chunks hraw
+
+theorem aroon_series_on_fillHA (tf : Int) (htf : 0 < tf) (p : Nat) (hp : 1 ≤ p) (nm : String) (n : Nat) (hk : IsKey nm)
+    (init : List (Candle K)) (chunks : List (List (Candle K)))
+    (hraw : RawTf (init ++ chunks.flatten) ∧ ∀ c ∈ init ++ chunks.flatten, c.tag = false) :
+    ∃ snap, candlesOf (runIndicator (mkTop (.aroon p : Kind K) nm n) { tf := some tf, fill := true, ha := true }
+        init chunks) = .ok snap ∧
+      EveryCandle (AroonCandle p n nm) (haSpec (fillSpec tf (init ++ chunks.flatten))) snap :=
+  Numeric.aroon_series_fillHA tf htf p hp nm n hk init chunks hraw
+
+theorem vwap_series_on_manager (M : MgrSpec K) (p : Int) (nm : String) (n : Nat) (hn : VwapNames nm) :
+    HoldsOn M (mkTop (.vwap p : Kind K) nm n) (VwapCandle n nm) :=
+  Numeric.vwap_series_on_manager M p nm n hn
+
+/-- **VWAP on a collapsing timeframe**: cumulative over the COLLAPSED candles (bucket volume × bucket typical price) -/
+theorem vwap_series_on_tf (tf : Int) (htf : 0 < tf) (p : Int) (nm : String) (n : Nat) (hn : VwapNames nm)
+    (init : List (Candle K)) (chunks : List (List (Candle K))) (hraw : RawTf (init ++ chunks.flatten)) :
+    ∃ snap, candlesOf (runIndicator (mkTop (.vwap p : Kind K) nm n) { tf := some tf } init chunks) = .ok snap ∧
+      snap.length = (resample tf (init ++ chunks.flatten)).length ∧
+      ∀ j, j < (resample tf (init ++ chunks.flatten)).length →
+        (snap.getD j default).bare = ((resample tf (init ++ chunks.flatten)).getD j default).bare ∧
+        NumNear n (vwapExact (fieldAt (·.h) (resample tf (init ++ chunks.flatten)))
+            (fieldAt (·.l) (resample tf (init ++ chunks.flatten))) (fieldAt (·.c) (resample tf (init ++ chunks.flatten)))
+            (fieldAt (·.v) (resample tf (init ++ chunks.flatten))) j) (readingByCandle (snap.getD j default) nm) ∧
+        NumIs (cumPV (fieldAt (·.h) (resample tf (init ++ chunks.flatten)))
+            (fieldAt (·.l) (resample tf (init ++ chunks.flatten))) (fieldAt (·.c) (resample tf (init ++ chunks.flatten)))
+            (fieldAt (·.v) (resample tf (init ++ chunks.flatten))) j)
+          (readingByCandle (snap.getD j default) (nm ++ "_data.pv")) ∧
+        NumIs (cumSum (fieldAt (·.v) (resample tf (init ++ chunks.flatten))) j)
+          (readingByCandle (snap.getD j default) (nm ++ "_data.vol")) :=
+  Numeric.vwap_series_tf tf htf p nm n hn init chunks hraw
+
+theorem vwap_series_on_fillHA (tf : Int) (htf : 0 < tf) (p : Int) (nm : String) (n : Nat) (hn : VwapNames nm)
+    (init : List (Candle K)) (chunks : List (List (Candle K)))
+    (hraw : RawTf (init ++ chunks.flatten) ∧ ∀ c ∈ init ++ chunks.flatten, c.tag = false) :
+    ∃ snap, candlesOf (runIndicator (mkTop (.vwap p : Kind K) nm n) { tf := some tf, fill := true, ha := true }
+        init chunks) = .ok snap ∧
+      EveryCandle (VwapCandle n nm) (haSpec (fillSpec tf (init ++ chunks.flatten))) snap :=
+  Numeric.vwap_series_fillHA tf htf p nm n hn init chunks hraw
+
+theorem obv_series_on_manager (M : MgrSpec K) (nm : String) (n : Nat) (hk : IsKey nm) :
+    HoldsOn M (mkTop .obv nm n) (ObvCandle (K := K) n nm) :=
+  Numeric.obv_series_on_manager M nm n hk
+
+/-- **OBV on a collapsing timeframe**: ± the BUCKET volume by the sign of the change of the bucket closes -/
+theorem obv_series_on_tf (tf : Int) (htf : 0 < tf) (nm : String) (n : Nat) (hk : IsKey nm)
+    (init : List (Candle K)) (chunks : List (List (Candle K))) (hraw : RawTf (init ++ chunks.flatten)) :
+    ∃ snap, candlesOf (runIndicator (mkTop .obv nm n) { tf := some tf } init chunks) = .ok snap ∧
+      snap.length = (resample tf (init ++ chunks.flatten)).length ∧
+      ∀ j, j < (resample tf (init ++ chunks.flatten)).length →
+        (snap.getD j default).bare = ((resample tf (init ++ chunks.flatten)).getD j default).bare ∧
+        ∃ t : Num K, readingByCandle (snap.getD j default) nm = .num t ∧
+          |t.toF - obvExact (fieldAt (·.c) (resample tf (init ++ chunks.flatten)))
+            (fieldAt (·.v) (resample tf (init ++ chunks.flatten))) j| ≤ ((j + 1 : Nat) : K) * eps K n :=
+  Numeric.obv_series_tf tf htf nm n hk init chunks hraw
+
+theorem obv_series_on_fillHA (tf : Int) (htf : 0 < tf) (nm : String) (n : Nat) (hk : IsKey nm)
+    (init : List (Candle K)) (chunks : List (List (Candle K)))
+    (hraw : RawTf (init ++ chunks.flatten) ∧ ∀ c ∈ init ++ chunks.flatten, c.tag = false) :
+    ∃ snap, candlesOf (runIndicator (mkTop .obv nm n) { tf := some tf, fill := true, ha := true } init chunks)
+        = .ok snap ∧
+      EveryCandle (ObvCandle n nm) (haSpec (fillSpec tf (init ++ chunks.flatten))) snap :=
+  Numeric.obv_series_fillHA tf htf nm n hk init chunks hraw
+
+/-- **ROC is its textbook series on every manager whose candles keep a non-zero input** (after construction and
+after every append – the library divides by the reference value unguarded) -/
+theorem roc_series_on_manager (M : MgrSpec K) (p : Nat) (hp : 1 ≤ p) (nm input : String) (fld : Candle K → Num K)
+    (n : Nat) (hk : IsKey nm) (hin : AttrInput input) (hattr : ∀ c : Candle K, c.attr input = some (.num (fld c))) :
+    HoldsOnWhen M (mkTop (.roc p input) nm n) (NonzeroInput fld) (RocCandle p n nm fld) :=
+  Numeric.roc_series_on_manager M p hp nm input fld n hk hin hattr
+
+theorem roc_series_on_tf (tf : Int) (htf : 0 < tf) (p : Nat) (hp : 1 ≤ p) (nm input : String) (fld : Candle K → Num K)
+    (n : Nat) (hk : IsKey nm) (hin : AttrInput input) (hattr : ∀ c : Candle K, c.attr input = some (.num (fld c)))
+    (init : List (Candle K)) (chunks : List (List (Candle K))) (hraw : RawTf (init ++ chunks.flatten))
+    (hnz : ∀ k, k ≤ chunks.length → ∀ j, j < (resample tf (init ++ (chunks.take k).flatten)).length →
+      fieldAt fld (resample tf (init ++ (chunks.take k).flatten)) j ≠ 0) :
+    ∃ snap, candlesOf (runIndicator (mkTop (.roc p input) nm n) { tf := some tf } init chunks) = .ok snap ∧
+      snap.length = (resample tf (init ++ chunks.flatten)).length ∧
+      ∀ j, j < (resample tf (init ++ chunks.flatten)).length →
+        (snap.getD j default).bare = ((resample tf (init ++ chunks.flatten)).getD j default).bare ∧
+        DirectOK (p + 1) n (rocAt (fieldAt fld (resample tf (init ++ chunks.flatten))) p) j
+          (readingByCandle (snap.getD j default) nm) :=
+  Numeric.roc_series_tf tf htf p hp nm input fld n hk hin hattr init chunks hraw hnz
+
+theorem roc_series_on_fillHA (tf : Int) (htf : 0 < tf) (p : Nat) (hp : 1 ≤ p) (nm input : String)
+    (fld : Candle K → Num K) (n : Nat) (hk : IsKey nm) (hin : AttrInput input)
+    (hattr : ∀ c : Candle K, c.attr input = some (.num (fld c)))
+    (init : List (Candle K)) (chunks : List (List (Candle K)))
+    (hraw : RawTf (init ++ chunks.flatten) ∧ ∀ c ∈ init ++ chunks.flatten, c.tag = false)
+    (hnz : ∀ k, k ≤ chunks.length → NonzeroInput fld (haSpec (fillSpec tf (init ++ (chunks.take k).flatten)))) :
+    ∃ snap, candlesOf (runIndicator (mkTop (.roc p input) nm n) { tf := some tf, fill := true, ha := true }
+        init chunks) = .ok snap ∧
+      EveryCandle (RocCandle p n nm fld) (haSpec (fillSpec tf (init ++ chunks.flatten))) snap :=
+  Numeric.roc_series_fillHA tf htf p hp nm input fld n hk hin hattr init chunks hraw hnz
+
+/-- non-vacuity (ℚ, two-minute timeframe): RSI(2) returns four candles, no reading before COLLAPSED index 2, then a
+float in `[0, 100]` within `ε₄` of the textbook RSI of the collapsed closes.  (`Int` runs by `decide +kernel`: end of
+HexProofs/Numeric/SeriesOnManagersC06.lean.) -/
+example : ∃ snap : List (Candle ℚ),
+    candlesOf (runIndicator (mkTop (.rsi ((2 : Nat) : Int) "close" : Kind ℚ) "RSI_2" 4) { tf := some 120 }
+      (haStamped.take 2) [haStamped.drop 2]) = .ok snap ∧ snap.length = 4 ∧
+    readingByCandle (snap.getD 1 default) "RSI_2" = .none ∧
+    ∃ y, readingByCandle (snap.getD 3 default) "RSI_2" = .flt y ∧
+      |y - rsiExact 2 (fieldAt (·.c) (resample 120 haStamped)) 3| ≤ eps ℚ 4 ∧ 0 ≤ y ∧ y ≤ 100 := by
+  obtain ⟨snap, h1, h2, h3⟩ := rsi_series_on_tf (K := ℚ) 120 (by decide) 2 (by norm_num) "RSI_2" "close" (·.c) 4
+    rsiNames_demo2 (by decide) ⟨noDot_close, by decide⟩ (fun _ => rfl) (haStamped.take 2) [haStamped.drop 2]
+    haStamped_ok.1
+  have e : haStamped.take 2 ++ [haStamped.drop 2].flatten = haStamped := by simp
+  rw [e] at h2 h3
+  have hlen : (resample 120 haStamped).length = 4 := by decide +kernel
+  rw [hlen] at h2 h3
+  have a1 := (h3 1 (by decide)).2.1
+  have a3 := (h3 3 (by decide)).2.1
+  unfold rsiSeries at a1 a3
+  rw [if_pos (by decide)] at a1
+  rw [if_neg (by decide)] at a3
+  exact ⟨snap, h1, h2, a1, a3⟩
 
 end Hex.C06
